@@ -1,44 +1,35 @@
-"""C15 finding config-skips-post-init: the same two options given in fpm.toml and through --config
-yield different settings (--config values are attached after __post_init__, unconverted).
+"""C15 finding config-skips-post-init (repaired): the same options given in fpm.toml and through
+--config (the `ford` command line, i.e. ford.initialize) must yield the same settings.
 Run with PYTHONPATH=/repo.  Exit 1 while the defect is present."""
 import contextlib, io, os, pathlib, shutil, sys, tempfile
 os.environ["FORD_DEBUGGING"] = "1"
 import ford
 
+OPTIONS = ["preprocess = false", "display = 'Private'", "src_dir = './s1'", "project_url = 'https://x.org'",
+           "output_dir = 'out'", "extensions = ['f90']"]
 
-def effective(md="", toml=None, config=None, cwd_elsewhere=False, files=()):
-    """ford.load_settings + ford.parse_arguments on a scratch project; returns the settings object
-    or the exception"""
+
+def command_line(toml, config):
     root = pathlib.Path(os.path.realpath(tempfile.mkdtemp(prefix="c15demo_")))
-    proj, other = root / "p", root / "w"
-    proj.mkdir(); other.mkdir()
-    (proj / "proj.md").write_text(md)
+    (root / "proj.md").write_text("")
     if toml is not None:
-        (proj / "fpm.toml").write_text(toml)
-    for rel in files:
-        (proj / rel).parent.mkdir(parents=True, exist_ok=True)
-        (proj / rel).write_text("module m_%s\nend module\n" % pathlib.Path(rel).stem)
-    old = os.getcwd()
-    os.chdir(other if cwd_elsewhere else proj)
-    directory = "../p" if cwd_elsewhere else ""
+        (root / "fpm.toml").write_text(toml)
+    old, argv = os.getcwd(), sys.argv
+    os.chdir(root)
+    sys.argv = ["ford", "proj.md"] + ([f"--config={config}"] if config else [])
     try:
-        with contextlib.redirect_stdout(io.StringIO()) as out:
-            docs, settings = ford.load_settings(md, directory, "proj.md")
-            settings, docs = ford.parse_arguments({"project_file": None, "config": config}, docs, settings, directory)
-            extra = CALLBACK(settings, proj) if CALLBACK else None
-        return settings, out.getvalue(), extra
-    except BaseException as e:  # noqa
-        return e, "", None
+        with contextlib.redirect_stdout(io.StringIO()):
+            settings, _ = ford.initialize()
+        return {k: (sorted(v) if k == "extensions" else str(v).replace(str(root), "<project>"))
+                for k, v in vars(settings).items() if k in ("display", "src_dir", "project_url", "exclude_dir", "extensions")}
     finally:
         os.chdir(old)
+        sys.argv = argv
         shutil.rmtree(root)
 
 
-CALLBACK = None
-
-t, _, _ = effective(md="preprocess: false\n", toml="[extra.ford]\npreprocess = false\ndisplay = 'Private'\nsrc_dir = './s1'\nproject_url = 'https://x.org'\n")
-c, _, _ = effective(md="preprocess: false\n", config="display = 'Private'; src_dir = './s1'; project_url = 'https://x.org'")
-for name in ("display", "src_dir", "project_url"):
-    print(f"{name:12} fpm.toml: {getattr(t, name)!r}\n{'':12} --config: {getattr(c, name)!r}")
-same = all(getattr(t, n) == getattr(c, n) for n in ("display", "src_dir", "project_url"))
-sys.exit(0 if same else 1)
+t = command_line("[extra.ford]\n" + "\n".join(OPTIONS) + "\n", None)
+c = command_line(None, "; ".join(OPTIONS))
+for name in t:
+    print(f"{name:12} fpm.toml: {t[name]}\n{'':12} --config: {c[name]}")
+sys.exit(0 if t == c else 1)
